@@ -305,7 +305,7 @@ def run(ctx):
     for n, s in enumerate(strs):
         if ctx.owns(n):
             check_quote(ctx, irc, s)
-    for i in ctx.cases(30000, 1500000):
+    for i in ctx.cases(30000, 1000000):
         rng = ctx.case_rng(i)
         kind = rng.choice(("PRIVMSG", "NOTICE"))
         user = rng.choice(USERS)
